@@ -26,7 +26,7 @@ def chains():
     out.append(("Deflate", [{"id": FILTER_DEFLATE}]))
     out.append(("Copy", [{"id": FILTER_COPY}]))
     out.append(("ZStandard", [{"id": FILTER_ZSTD, "level": 3}]))
-    out.append(("PPMd", [{"id": FILTER_PPMD, "order": 6, "mem": 1 << 20}]))
+    out.append(("PPMd", [{"id": FILTER_PPMD, "order": 6, "mem": 20}]))
     out.append(("Brotli", [{"id": FILTER_BROTLI, "level": 5}]))
     out.append(("Delta+LZMA2", [{"id": FILTER_DELTA, "dist": 4}, {"id": FILTER_LZMA2, "preset": 1}]))
     out.append(("Delta+LZMA", [{"id": FILTER_DELTA, "dist": 1}, {"id": FILTER_LZMA, "preset": 1}]))
